@@ -368,6 +368,8 @@ class Engine:
         return [(s0, v if is_raised(v) else Tup(v, is_list)) for s0, v in self.ev_all(e.elts, st)]
 
     def ev_Dict(self, e, st):
+        if any(k is None for k in e.keys):
+            raise Unsupported("dict display with ** unpacking")
         if e.keys:
             # small literal dicts used as scopes: {name: None}
             outs = []
